@@ -1528,6 +1528,69 @@ impl HttpsListener {
             validate_sozu_id_header(hdr)?;
         }
 
+        // Everything else that can fail is built from copies before the first
+        // write, so a refused patch leaves the listener observably unchanged:
+        // no half-applied fields, no bad template kept in the stored config.
+        //
+        // ALPN (forces a rustls ServerConfig rebuild): build the candidate
+        // rustls context using a **cloned** config that carries the new ALPN.
+        // Only if the build succeeds do we commit `self.config.alpn_protocols`
+        // and swap the Arc below. This ensures a rustls failure (crypto
+        // provider transient, resolver error, etc.) leaves the listener
+        // observably unchanged — the master-side state would still diverge
+        // from the worker-side refusal, but the worker itself stays consistent.
+        let new_rustls = match patch.alpn_protocols {
+            Some(ref alpn_wrapper) => {
+                let mut candidate = self.config.clone();
+                candidate.alpn_protocols = alpn_wrapper.values.clone();
+                Some(Arc::new(Self::create_rustls_context(
+                    &candidate,
+                    self.resolver.clone(),
+                )?))
+            }
+            None => None,
+        };
+
+        // HTTP answers: merge legacy `http_answers` and the new `answers`
+        // map on top of a copy of the existing config and compile the
+        // listener-level template registry from it.
+        let answers_changed = patch.http_answers.is_some() || !patch.answers.is_empty();
+        let rebuilt_answers = if answers_changed {
+            let mut http_answers = self.config.http_answers.clone();
+            let mut answers = self.config.answers.clone();
+            if let Some(ref new_answers) = patch.http_answers {
+                crate::sozu_command::state::merge_custom_http_answers(
+                    &mut http_answers,
+                    new_answers,
+                );
+            }
+            for (code, body) in &patch.answers {
+                if !body.is_empty() {
+                    answers.insert(code.clone(), body.clone());
+                }
+            }
+
+            let mut answers_map = answers.clone();
+            if let Some(ref legacy) = http_answers {
+                crate::protocol::http::answers::merge_legacy_into_map(&mut answers_map, legacy);
+            }
+            let rebuilt = HttpAnswers::new(&answers_map)
+                .map_err(|(name, error)| ListenerError::TemplateParse(name, error))?;
+            Some((http_answers, answers, rebuilt))
+        } else {
+            None
+        };
+
+        // HSTS: when `enabled` is missing on a present HSTS block, refuse the
+        // patch — `enabled` is the explicit disambiguator between "disable"
+        // and "enable" semantics, and the operator must signal one or the
+        // other on every update.
+        if let Some(new_hsts) = patch.hsts {
+            if new_hsts.enabled.is_none() {
+                return Err(ListenerError::HstsEnabledRequired);
+            }
+        }
+
         // --- simple field patches ---
         if let Some(v) = patch.public_address {
             self.config.public_address = Some(v);
@@ -1622,23 +1685,9 @@ impl HttpsListener {
             self.config.h2_max_window_update_stream0_per_window = Some(v);
         }
 
-        // --- ALPN rebuild (may force a rustls ServerConfig rebuild) ---
-        //
-        // Transactional: build the candidate rustls context first using a
-        // **cloned** config that carries the new ALPN. Only if the build
-        // succeeds do we commit `self.config.alpn_protocols` and swap the
-        // Arc. This ensures a rustls failure (crypto provider transient,
-        // resolver error, etc.) leaves the listener observably unchanged —
-        // the master-side state would still diverge from the worker-side
-        // refusal, but the worker itself stays consistent.
-        if let Some(ref alpn_wrapper) = patch.alpn_protocols {
-            let mut candidate = self.config.clone();
-            candidate.alpn_protocols = alpn_wrapper.values.clone();
-            let new_rustls = Arc::new(Self::create_rustls_context(
-                &candidate,
-                self.resolver.clone(),
-            )?);
-            // Build succeeded — commit.
+        // --- ALPN: commit the rustls context built above ---
+        if let (Some(alpn_wrapper), Some(new_rustls)) = (patch.alpn_protocols.as_ref(), new_rustls)
+        {
             self.config.alpn_protocols = alpn_wrapper.values.clone();
             self.rustls_details = new_rustls;
             // Post: the commit is atomic — the live config must now name exactly
@@ -1651,30 +1700,13 @@ impl HttpsListener {
             );
         }
 
-        // HTTP answers: merge legacy `http_answers` and the new `answers`
-        // map on top of the existing config, then rebuild the listener-level
-        // template registry. Per-cluster overrides in
-        // `HttpAnswers::cluster_answers` are preserved across the rebuild.
-        let answers_changed = patch.http_answers.is_some() || !patch.answers.is_empty();
-        if answers_changed {
-            if let Some(ref new_answers) = patch.http_answers {
-                crate::sozu_command::state::merge_custom_http_answers(
-                    &mut self.config.http_answers,
-                    new_answers,
-                );
-            }
-            for (code, body) in &patch.answers {
-                if !body.is_empty() {
-                    self.config.answers.insert(code.clone(), body.clone());
-                }
-            }
-
-            let mut answers_map = self.config.answers.clone();
-            if let Some(ref legacy) = self.config.http_answers {
-                crate::protocol::http::answers::merge_legacy_into_map(&mut answers_map, legacy);
-            }
-            let mut rebuilt = HttpAnswers::new(&answers_map)
-                .map_err(|(name, error)| ListenerError::TemplateParse(name, error))?;
+        // HTTP answers: store the merged answers and install the
+        // listener-level template registry compiled above. Per-cluster
+        // overrides in `HttpAnswers::cluster_answers` are preserved across
+        // the rebuild.
+        if let Some((http_answers, answers, mut rebuilt)) = rebuilt_answers {
+            self.config.http_answers = http_answers;
+            self.config.answers = answers;
             let preserved = std::mem::take(&mut self.answers.borrow_mut().cluster_answers);
             rebuilt.cluster_answers = preserved;
             *self.answers.borrow_mut() = rebuilt;
@@ -1682,10 +1714,8 @@ impl HttpsListener {
 
         // HSTS: full-object replacement when present in the patch. Absent
         // patch field preserves current value (matches the rest of this
-        // partial-update handler). When `enabled` is missing on a present
-        // HSTS block, refuse the patch — `enabled` is the explicit
-        // disambiguator between "disable" and "enable" semantics, and the
-        // operator must signal one or the other on every update.
+        // partial-update handler). A present HSTS block without `enabled`
+        // was refused above, before anything was written.
         //
         // Inheriting frontends are refreshed in place via
         // `Router::refresh_inheriting_hsts`: every frontend whose HSTS
@@ -1699,9 +1729,6 @@ impl HttpsListener {
         // `http.hsts.frontend_refreshed` counter (sum of refreshed
         // frontends from this patch).
         if let Some(new_hsts) = patch.hsts {
-            if new_hsts.enabled.is_none() {
-                return Err(ListenerError::HstsEnabledRequired);
-            }
             self.config.hsts = Some(new_hsts);
             let refreshed = self
                 .fronts
